@@ -329,6 +329,10 @@ def obligations(tier, seed):
     # for the backends that record the timestamp themselves this is the C13 store harness
     for via in ('store_tile', 'store_tiles'):
         specs.append(spec('props.C13_expiry', 'StoreTimestamp', 'rewrite-gets-a-new-timestamp/sqlite/%s' % via, cfg=dict(via=via)))
+    # validators come from the tile's own directory entry (lstat): a single-colour tile is a link to a shared file whose
+    # mtime/size say nothing about when this tile was (re)written
+    for via in ('load_tile_metadata', 'load_tile'):
+        specs.append(spec('props.C13_expiry', 'FileTimestamp', 'validators-from-the-tile-entry-not-the-link-target/%s' % via, cfg=dict(via=via)))
     specs.append(dict(name='stub-contract/httpdate', module=MOD, func='selfcheck_httpdate', kind='holds', args={}, cost=1))
     specs.append(spec(MOD, 'CondHarness', 'twin/CondHarness', kind='witness', cfg=dict(service='wmts', inm='current', ims='date', max_age=3600)))
     for label, patches, c in (CANARIES if tier == 'thorough' else CANARIES[:4]):
@@ -345,7 +349,7 @@ META = dict(
                 '304 with empty body and no Content-type; 304 only if the ETag matches the tile as stored or '
                 'If-Modified-Since >= its timestamp; after a rewrite the old ETag yields 200 (and a rewrite in the SQLite backends records the time of the rewrite, whatever timestamp the tile object carried); uncacheable tiles get '
                 'no-store, no validators and never 304 -- for every tile service.',
-    functions=CondHarness.functions + ['MBTilesCache._store_bulk', 'TileManager._load_tile_coords'],
+    functions=CondHarness.functions + ['MBTilesCache._store_bulk', 'TileManager._load_tile_coords', 'FileCache.load_tile_metadata', 'FileCache.load_tile'],
     bounds='timestamps >= 1 (reals), sizes >= 0, If-Modified-Since any whole second >= 0; header kinds enumerated '
            '(absent / current / other tile version / malformed)',
     outside='WMS-C path through WMSServer.map; real HTTP date parsing beyond the stated contract; md5',
